@@ -19,6 +19,23 @@ plus the frames of frames() below that are valid in a dialect POX itself speaks.
           payload length and the ICMPv6 checksum repaired afterwards (icmpv6.parse drops a body whose
           checksum is wrong, so plain corruption never reaches the ND / error-message parsers)
 
+Besides the mutants of the corpus, the structure-aware frames of mc/refs/pktgrammar.py are examined, each as it is
+(no further mutation): what byte corruption of a valid frame cannot produce is a frame whose structure differs
+CONSISTENTLY from the corpus, or one much longer / deeper than the corpus frames.
+  tlv.*   every element type of a stated set x every declared length of a stated set, body sized to fit, all
+          enclosing lengths and checksums valid, alone / before / after a well-formed sibling - for every TLV
+          container POX parses (ND options, TCP options incl. options overrunning the header and MPTCP subtypes,
+          IPv4 options, DHCP options, LLDP TLVs and their sub-typed bodies, IPv6 extension headers, IGMPv3 records,
+          ARP address lengths, EAPOL/EAP, RIP entries, DNS sections / RRs / name forms)
+  sel.*   every value of each dispatch field (ethertype / 802.3 length, IP protocol, next header, UDP ports, ICMP /
+          ICMPv6 / IGMP type, GRE flag word, VXLAN flags, LLC control, MPLS / VLAN fields) over well-formed payloads
+  deep.*  every self-nesting header and every element list repeated N times, N on a ladder up to the largest frame
+          an ofp_packet_in can carry (65517 bytes), plus payload sizes on the same ladder
+The group descriptions (type sets, length sets, ladders, quick-tier caps) are in rep.rule.  Frames of more than 1024
+bytes get a step budget that grows with the frame (jump_budget), a chain limit that grows with the frame
+(chain_limit), and str() / len() on a subset of the headers of a long chain (header_subset).  Every case runs with
+HEADROOM interpreter stack frames below the harness, whatever the depth of the harness itself.
+
 Every mutant is
   1. parsed with ethernet(raw=m)                                              phase "parse"
   2. walked along .next to the end (link counter)                              phase "walk"
@@ -36,9 +53,17 @@ with sys.monitoring (JumpBudget below; C15_GUARD=line switches to mc.engine.Line
 Oracle clauses (violation key = C15:<clause>:...):
   raises:<phase>:<file>:<function>:<exception>   a phase raised; site = innermost frame inside the POX tree
   raises:walk:<class>.next:<exception>           reading .next of a header raised
+  raises:<phase>:recursion:<files>:RecursionError  a phase ran out of interpreter stack; <files> = the source files
+                                                 of the functions that form the recursion (where the stack happened
+                                                 to run out is accidental)
   nonterminating:<phase>:<file>:<function>       a phase exceeded the step budget; site = the loop that was spinning
+  nonterminating:<phase>:<file>:<function>:reentrant:<files>
+                                                 ... while functions of <files> were on the stack more than once in
+                                                 most samples of the attribution window: the work is multiplied at
+                                                 every nesting level (exponential), not a loop that never ends
   chain:<class>.next:<type>                      a link of the chain is neither a packet_base, bytes nor None
-  chain:too-long                                 more than MAX_CHAIN links (cycle)
+  chain:too-long                                 more than chain_limit(len) links
+  chain:cycle:<class>                            following .next leads back to a header already visited
   unparsed-raw:<class>:<what>                    a header with parsed == False did not keep its raw input
                                                  (raw is not bytes / is not a slice of the offered frame)
   unparsed-pack:<class>                          pack() of an unparsed, payload-less header != its raw input
@@ -54,10 +79,15 @@ from mc.report import Report, digest
 from mc.refs.pktcorpus import corpus, CORPUS_PATHS
 from mc.refs import pktcorpus as K
 from mc.refs import rfc1071 as R
+from mc.refs import pktgrammar as G
 
 PID = "C15"
-MAX_CHAIN = 32             # links; the deepest valid corpus chain has 7
-JUMP_BUDGET = 20000        # backward jumps (loop iterations) inside the POX tree per phase
+MAX_CHAIN = 32             # links; the deepest valid corpus chain has 7 (frames of > 96 bytes: one link per 3 bytes, see chain_limit)
+JUMP_BUDGET = 20000        # backward jumps (loop iterations) inside the POX tree per phase (frames of <= 1024 bytes; see jump_budget)
+HEADROOM = 1000            # interpreter stack frames POX may use below the harness (the default recursion limit of a controller process)
+LONG_CHAIN = 48            # chains with more headers get str() / len() of a subset of their headers only (see header_subset)
+PRIME_LEN = 1024           # longer frames are parsed twice (see Case._run)
+HEX_MAX = 4096             # grammar frames longer than this are replayed by regenerating them (group, label) instead of from hex
 LINE_BUDGET = 200000       # C15_GUARD=line: `line` events in pox/lib/packet per phase
 FIRST = 64                 # thorough: all 255 alternatives for the first FIRST bytes
 PAIR_MAX_LEN = 400         # thorough, truncation x corrupted byte: frames up to this length
@@ -103,6 +133,30 @@ def small_values (b):
   for v in (0x00, 0xff, b ^ 0x01, b ^ 0x80, (b + 1) & 0xff, (b - 1) & 0xff, (b + 2) & 0xff, (b - 2) & 0xff):
     if v != b and v not in out: out.append(v)
   return out
+
+
+def chain_limit (n):
+  """Most links a chain parsed from n bytes may have: every header consumes at least 3 bytes (LLC is the shortest), and
+  the corpus bound MAX_CHAIN for short frames.  A chain that revisits a header is reported separately (chain:cycle)."""
+  return max(MAX_CHAIN, n // 3 + 2)
+
+
+def jump_budget (n):
+  """Loop iterations one phase may take on a frame of n bytes.  The corpus bound for frames up to 1024 bytes; beyond
+  that n * (16 + n/64): POX's checksum is a Python loop over 16-bit words and a nesting of checksummed headers packs
+  every level again, so honest work grows with length x depth (<= n/2 words x n/28 levels / 2 for the densest nesting,
+  ICMP errors quoting ICMP errors)."""
+  if n <= 1024: return JUMP_BUDGET
+  return JUMP_BUDGET + n * (16 + n // 64)
+
+
+def header_subset (chain):
+  """Headers that get their own str() / len() call: all of them up to LONG_CHAIN, else the first 8, the last 8 and
+  those at depths 8, 12, 16, 24, 32, 48, 64, 96, ... (len() packs from that header down, so all of them would be quadratic)."""
+  if len(chain) <= LONG_CHAIN: return chain
+  idx = set(range(8)) | set(range(len(chain) - 8, len(chain)))
+  idx.update(v for v in G.ladder(len(chain) - 1, 8))
+  return [chain[i] for i in sorted(idx)]
 
 
 def cases (family, frame):
@@ -240,9 +294,29 @@ def exc_site (P, e):
     tb = tb.tb_next
   t = type(e)
   name = t.__name__ if t.__module__ == "builtins" else "%s.%s" % (t.__module__, t.__name__)
+  if isinstance(e, RecursionError):
+    return "recursion:%s:%s" % (recursion_cycle(P, e), name)
   if last is None:
     return "<no-pox-frame>:%s" % name
   return "%s:%s:%s" % (os.path.basename(last.co_filename), getattr(last, "co_qualname", last.co_name), name)
+
+
+def recursion_cycle (P, e):
+  """Where the interpreter stack ran out is accidental (any frame of the cycle, or a helper called from it), so a
+  RecursionError is keyed by the recursion itself: the source files of the POX functions that make up at least half
+  as many frames of the traceback as the most frequent one (the members of the cycle), sorted."""
+  count = {}
+  tb = e.__traceback__
+  while tb is not None:
+    c = tb.tb_frame.f_code
+    inside = _INSIDE.get(c.co_filename)
+    if inside is None:
+      inside = _INSIDE[c.co_filename] = os.path.realpath(c.co_filename).startswith(P.root)
+    if inside: count[c] = count.get(c, 0) + 1
+    tb = tb.tb_next
+  if not count: return "<no-pox-frame>"
+  top = max(count.values())
+  return "+".join(sorted(set(os.path.basename(c.co_filename) for c, k in count.items() if 2 * k >= top)))
 
 
 class SiteBudget (LineBudget):
@@ -303,7 +377,7 @@ class JumpBudget (object):
     self.count = 0
     self.tripped = False
     self.where = None
-    self.per = {}
+    self.per = {}; self.reent = {}; self.nsamples = 0
     if not JumpBudget.installed:
       mon = sys.monitoring
       JumpBudget.root = root
@@ -315,13 +389,26 @@ class JumpBudget (object):
 
   def _over (self, code):
     if not self.tripped:
-      window = max(64, self.budget // 4)
+      window = min(65536, max(64, self.budget // 4))
       if _J_COUNT <= self.budget + window:
         self.per[code] = self.per.get(code, 0) + 1
+        if (_J_COUNT - self.budget) % max(1, window // 16) == 0: self._sample_stack()
         return
       self.tripped = True
       self.where = self._spinning(window)
     raise LineBudget.BudgetExceeded()
+
+  def _sample_stack (self):
+    """One sample of the attribution window: which POX functions other than packet_base's are on the stack more than
+    once (a phase that re-enters a function on its way down, e.g. a checksum that packs the payload again)."""
+    f = sys._getframe(3); n = {}
+    while f is not None:
+      c = f.f_code
+      if c.co_filename in _J_IN and not c.co_filename.endswith("packet_base.py"): n[c] = n.get(c, 0) + 1
+      f = f.f_back
+    self.nsamples += 1
+    for c, k in n.items():
+      if k > 1: self.reent[c] = self.reent.get(c, 0) + 1
 
   def _spinning (self, window):
     """Name the loop that does not end: the OUTERMOST function on the stack that took a sizeable share of the
@@ -338,11 +425,16 @@ class JumpBudget (object):
         hot = c; break
     if hot is None:
       hot = max(self.per, key=lambda c: (self.per[c], c.co_filename, c.co_name))
-    return "%s:%s" % (os.path.basename(hot.co_filename), getattr(hot, "co_qualname", hot.co_name))
+    where = "%s:%s" % (os.path.basename(hot.co_filename), getattr(hot, "co_qualname", hot.co_name))
+    # re-entrant in most samples of the window: the work is multiplied on the way down (exponential in the nesting
+    # depth), which is a different defect from a loop that does not end and gets its own key
+    via = sorted(set(os.path.basename(c.co_filename) for c, k in self.reent.items() if 2 * k > self.nsamples))
+    if via: where += ":reentrant:" + "+".join(via)
+    return where
 
   def __enter__ (self):
     global _J_COUNT, _J_LIMIT, _J_ACTIVE
-    self.tripped = False; self.where = None; self.per = {}
+    self.tripped = False; self.where = None; self.per = {}; self.reent = {}; self.nsamples = 0
     _J_COUNT = 0; _J_LIMIT = self.budget; _J_ACTIVE = self
     return self
 
@@ -369,7 +461,9 @@ MISSING = _Missing()
 class Case (object):
   """One mutant examined.  bad: list of (key suffix, what); sig: digestable outcome."""
   def __init__ (self, P, data, budget=None):
-    self.P = P; self.data = data; self.budget = budget
+    self.P = P; self.data = data
+    self.budget = budget or (jump_budget(len(data)) if GUARD != "line" else LINE_BUDGET * (jump_budget(len(data)) // JUMP_BUDGET))
+    self.limit = chain_limit(len(data)); self.gaveup = False
     self.bad = []; self.sites = {}; self.broken = None; self.calls = 0; self.sig = []; self.text = None; self.maxlines = 0
 
   def fail (self, clause, what):
@@ -377,9 +471,12 @@ class Case (object):
 
   def guarded (self, phase, fn, *args):
     """Run one phase under the step budget.  Returns (ok, value)."""
+    if self.gaveup:                 # a phase of this route ran out of budget: the later ones would repeat that at full cost
+      self.sig.append((phase, "skipped"))
+      return False, None
     self.calls += 1
     lb = self.P.guard
-    if self.budget: lb.budget = self.budget
+    lb.budget = self.budget
     val = None; err = None
     with lb:
       try:
@@ -388,9 +485,12 @@ class Case (object):
         err = e
     if lb.count > self.maxlines: self.maxlines = lb.count
     if lb.tripped:
-      self.fail("nonterminating:%s:%s" % (phase, lb.where),
-                "%s did not finish within %d %s (spinning in %s)" % (phase, lb.budget, "lines" if GUARD == "line" else "loop iterations", lb.where))
+      if ("spin", lb.where) not in self.sites:       # like a raising site: reported under the first phase that reaches it
+        self.sites[("spin", lb.where)] = phase
+        self.fail("nonterminating:%s:%s" % (phase, lb.where),
+                  "%s did not finish within %d %s (spinning in %s)" % (phase, lb.budget, "lines" if GUARD == "line" else "loop iterations", lb.where))
       self.sig.append((phase, "budget"))
+      self.gaveup = len(self.data) > 1024     # (short frames: every phase is run, as before the long frames were added)
       return False, None
     if err is not None:
       site = exc_site(self.P, err)
@@ -407,16 +507,20 @@ class Case (object):
   def walk (self, top, tag):
     """Follow .next; returns the list of headers (packet_base objects) and the terminal (bytes/None)."""
     pb = self.P.packet_base
-    chain = []; p = top; holder = None
+    chain = []; p = top; holder = None; seen = set()
     while True:
       if p is None or isinstance(p, bytes): return chain, p
       if not isinstance(p, pb):
         self.fail("chain:%s.next:%s" % (type(holder).__name__, type(p).__name__),
                   "%s: .next of a %s is a %s, neither a header nor bytes" % (tag, type(holder).__name__, type(p).__name__))
         return chain, None
+      if id(p) in seen:
+        self.fail("chain:cycle:%s" % type(p).__name__, "%s: following .next leads back to a %s header already visited" % (tag, type(p).__name__))
+        return chain, None
+      seen.add(id(p))
       chain.append(p)
-      if len(chain) > MAX_CHAIN:
-        self.fail("chain:too-long", "%s: more than %d links along .next" % (tag, MAX_CHAIN))
+      if len(chain) > self.limit:
+        self.fail("chain:too-long", "%s: more than %d links along .next (frame of %d bytes)" % (tag, self.limit, len(self.data)))
         return chain, None
       holder = p
       self.calls += 1
@@ -457,7 +561,8 @@ class Case (object):
     """str() of every header, dump(), pack(); with full also pack() of unparsed headers, dump() again and len()
     of every header (the PacketIn route runs the same library code on an equal object, so it gets the short form)."""
     okall = True
-    for h in chain:
+    some = header_subset(chain)
+    for h in some:
       ok, s = self.guarded("str", str, h)
       okall &= ok
       if ok and not isinstance(s, str):
@@ -491,13 +596,29 @@ class Case (object):
         okall &= ok
     # len() of every header: the packed length of that header and everything under it (packet_base.__len__
     # packs; a handler that forwards or re-encapsulates an inner header packs from there)
-    for h in (chain if full else ()):
+    for h in (some if full else ()):
       ok, n = self.guarded("len", len, h)
       okall &= ok
     return okall, same
 
   def run (self):
+    old = sys.getrecursionlimit()
+    sys.setrecursionlimit(stack_depth() + HEADROOM)
+    try:
+      return self._run()
+    finally:
+      sys.setrecursionlimit(old)
+
+  def _run (self):
     P = self.P; data = self.data
+    if len(data) > PRIME_LEN:
+      # A frame long enough to exhaust the interpreter stack is parsed once for nothing: where a parser that
+      # swallows RecursionError (mpls) gives up depends on whether sys.monitoring still has to report the
+      # instructions executed at the deepest level for the first time (that callback needs a stack frame too),
+      # i.e. on what the process has run before.  The second parse is the one examined.
+      nb, ns, st = len(self.bad), len(self.sig), dict(self.sites)
+      self.guarded("parse", _parse, P, data)
+      del self.bad[nb:]; del self.sig[ns:]; self.sites = st; self.gaveup = False
     # ---- direct ----
     ok, top = self.guarded("parse", _parse, P, data)
     shape = None
@@ -509,6 +630,12 @@ class Case (object):
       okall, same = self.render(top, chain)
       self.sig.append((okall, same))
     # ---- through a packet-in ----
+    self.gaveup = False
+    if len(data) > PRIME_LEN:             # as above, for the route through PacketIn.parsed (an event caches its result)
+      nb, ns, st = len(self.bad), len(self.sig), dict(self.sites)
+      ok, ev = self.guarded("packetin", _packet_in, P, data)
+      if ok: self.guarded("parse", _parsed, ev)
+      del self.bad[nb:]; del self.sig[ns:]; self.sites = st; self.gaveup = False
     ok, ev = self.guarded("packetin", _packet_in, P, data)
     if ok:
       if ev.data != data:
@@ -519,7 +646,9 @@ class Case (object):
           self.fail("packetin:not-cached", "PacketIn.parsed returned a different object the second time")
         chain2, term2 = self.walk(top2, "packetin")
         shape2 = shape_of(chain2, term2)
-        if shape is not None and shape2 != shape:
+        # (a parser that runs out of stack and keeps the rest as bytes - mpls - stops a few headers earlier on the
+        # packet-in route, which starts a few frames deeper: chains of more than HEADROOM/4 links are not compared)
+        if shape is not None and shape2 != shape and max(len(shape[0]), len(shape2[0])) <= HEADROOM // 4:
           self.fail("packetin:chain-differs", "PacketIn.parsed gives %r, ethernet(raw=) gives %r" % (shape2, shape))
         self.check_unparsed(chain2, term2, "packetin")
         okall2, same2 = self.render(top2, chain2, full=False)
@@ -531,6 +660,13 @@ class Case (object):
         seen.add(k); out.append((k, w))
     self.bad = out
     return self
+
+
+def stack_depth ():
+  f = sys._getframe(1); n = 0
+  while f is not None:
+    n += 1; f = f.f_back
+  return n
 
 
 def _parse (P, data):
@@ -568,11 +704,61 @@ def describe (name, family, L, p, v, frame):
 
 def order_key (replay):
   """Total order on counterexamples: shortest input first, then simplest family, then bytes."""
-  return (len(replay["hex"]) // 2, FAMILY_ORDER.get(replay.get("family"), 9), replay.get("pos") is not None,
-          replay["hex"], replay.get("frame", ""))
+  return (replay["length"], FAMILY_ORDER.get(replay.get("family"), 9), replay.get("pos") is not None,
+          replay.get("hex", ""), replay.get("frame", ""))
+
+
+def describe_g (group, label, data, thorough):
+  """Replay descriptor of a grammar frame: by value when short, else by name (regenerated from mc/refs/pktgrammar)."""
+  d = dict(frame=label, family=group, length=len(data), full_length=len(data))
+  if len(data) <= HEX_MAX: d["hex"] = data.hex()
+  else: d["regenerate"] = dict(group=group, label=label, thorough=bool(thorough))
+  return d
+
+
+def replay_bytes (data):
+  if "hex" in data: return bytes.fromhex(data["hex"])
+  r = data["regenerate"]
+  for label, frame in G.cases(r["group"], r["thorough"]):
+    if label == r["label"]: return frame
+  raise KeyError("no frame %r in group %r" % (r["label"], r["group"]))
+
+
+def _gworker (item):
+  """Grammar frames (mc/refs/pktgrammar.py): each frame of the group is examined as it is."""
+  _, group, i, n, thorough = item
+  P = pox_namespace()
+  rep = Report(PID, "exploration")
+  best = {}
+  maxlines = 0
+  for j, (label, data) in enumerate(G.cases(group, thorough)):
+    if j % n != i: continue
+    c = Case(P, data).run()
+    rep.evaluations += 1
+    rep.transitions += c.calls
+    if c.maxlines > maxlines: maxlines = c.maxlines
+    rep.outcome((label.split(":")[0], tuple(c.sig)))
+    if c.bad:
+      replay = describe_g(group, label, data, thorough)
+      ok = order_key(replay)
+      for k, what in c.bad:
+        key = "%s:%s" % (PID, k)
+        cur = best.get(key)
+        if cur is None:
+          best[key] = [ok, what, replay, 1]
+        else:
+          cur[3] += 1
+          if ok < cur[0]: cur[0], cur[1], cur[2] = ok, what, replay
+    elif j % 997 == 0 and len(data) <= 200 and len(rep.samples) < 1:
+      rep.sample(dict(case=dict(frame=label, family=group, length=len(data), hex=data.hex()), path=group,
+                      chain=jsonable_shape(c.sig), dump=c.text))
+  rep.extra["_best"] = best
+  rep.extra["_maxlines"] = maxlines
+  return rep
 
 
 def _worker (item):
+  if item[0] == "g": return _gworker(item)
   family, name, i, n = item
   P = pox_namespace()
   frame = frames()[name]
@@ -588,7 +774,7 @@ def _worker (item):
     if c.maxlines > maxlines: maxlines = c.maxlines
     rep.outcome((name, tuple(c.sig)))
     if c.bad:
-      replay = describe(name, family, L, p, v, frame); replay["hex"] = data.hex()
+      replay = describe(name, family, L, p, v, frame); replay["hex"] = data.hex(); replay["length"] = len(data)
       ok = order_key(replay)
       for k, what in c.bad:
         key = "%s:%s" % (PID, k)
@@ -611,12 +797,31 @@ def jsonable_shape (sig):
   return repr(sig[0]) if sig else None
 
 
+GROUP_SLICES = {"deep.": 16, "tlv.tcp": 12, "sel.ethertype": 8}     # work items per grammar group (default 4)
+
+def group_items (cfg):
+  """The deep.* groups first: their largest frames take longest, so they should not be the last items started."""
+  names = sorted(G.GROUPS, key=lambda g: (not g.startswith("deep."), g))
+  if cfg.only:
+    names = [g for g in names if cfg.only in g]
+  items = []
+  for g in names:
+    n = 4
+    for pre, k in GROUP_SLICES.items():
+      if g.startswith(pre): n = k
+    if not cfg.quick: n *= 2
+    if g == "deep.quote": n = 8             # (building its checksummed nestings costs more than examining a slice of them)
+    for i in range(n):
+      items.append(("g", g, i, n, not cfg.quick))
+  return items
+
+
 def work_items (cfg):
   C = frames()
   names = sorted(C)
   if cfg.only:
-    names = [x for x in names if cfg.only in x] or names
-  items = []
+    names = [x for x in names if cfg.only in x] or ([] if any(cfg.only in g for g in G.GROUPS) else names)
+  items = group_items(cfg)
   for fam in families(cfg):
     for name in names:
       if fam.startswith("fix-") and not is_icmp6(C[name]): continue
@@ -641,18 +846,32 @@ def run (cfg):
               "IPv6 addresses on, with IPv6 payload length and ICMPv6 checksum repaired (the ICMPv6 parser drops bodies "
               "with a wrong checksum). Each mutant is parsed by ethernet(raw=) and via ofp_packet_in pack/unpack -> "
               "PacketIn.parsed, walked along .next, printed (str of every header, dump), re-packed and measured (len of every header), every phase "
-              "under a budget of %d %s. distinct = distinct (frame, header chain with parsed flags, raising sites, "
-              "pack()==input) digests; cases = distinct (family, frame, length, position, value) descriptors"
+              "under a budget of %d %s (frames of more than 1024 bytes: + n*(16+n/64)) and with %d interpreter stack frames of headroom. "
+              "PLUS the structure-aware frames of mc/refs/pktgrammar.py, each examined as it is in the same way (%s tier): %s. "
+              "distinct = distinct (frame or grammar family, header chain with parsed flags, raising sites, "
+              "pack()==input) digests; cases = distinct (family, frame, length, position, value) descriptors resp. distinct grammar labels"
               % (len(C), sum(len(f) for f in C.values()),
                  "" if cfg.quick else "; all 255 alternative values for each of the first %d bytes; for frames of <= %d "
                  "bytes every truncation length x every corrupted position below it x {0x00,0xff,b^0x01}" % (FIRST, PAIR_MAX_LEN),
                  sum(1 for f in C.values() if is_icmp6(f)),
                  LINE_BUDGET if GUARD == "line" else JUMP_BUDGET,
-                 "traced lines of pox/lib/packet" if GUARD == "line" else "loop iterations (backward jumps) inside the POX tree"))
+                 "traced lines of pox/lib/packet" if GUARD == "line" else "loop iterations (backward jumps) inside the POX tree",
+                 HEADROOM, cfg.tier,
+                 "; ".join("[%s] %s" % (g, G.GROUPS[g][1]) for g in sorted(G.GROUPS))))
   rep.bound = dict(frames=len(C), families=fams, first_bytes_all_values=(0 if cfg.quick else FIRST),
-                   guard=GUARD, budget=(LINE_BUDGET if GUARD == "line" else JUMP_BUDGET), max_chain=MAX_CHAIN)
+                   guard=GUARD, budget=(LINE_BUDGET if GUARD == "line" else JUMP_BUDGET), max_chain=MAX_CHAIN,
+                   grammar_groups=sorted(G.GROUPS), max_frame=G.MAX_FRAME, stack_headroom=HEADROOM,
+                   quick_level_cap_of_checksummed_nestings=(G.QUAD_CAP if cfg.quick else None))
   rep.assumptions = ["single-byte corruption (and truncation x single-byte corruption in the thorough tier) of the corpus "
-                     "frames; multi-byte corruption and frames longer than the corpus frames are outside the bound",
+                     "frames, plus the structure-aware frames of the grammar groups (stated type sets x length sets, element "
+                     "placed alone / before / after one well-formed sibling; repetition counts on a ladder, not every count); "
+                     "multi-byte corruption outside those families, combinations of two malformed elements (quick tier) and "
+                     "frames longer than an ofp_packet_in can carry (%d bytes) are outside the bound" % G.MAX_FRAME,
+                     "POX gets %d interpreter stack frames below the harness (Python's default recursion limit; a "
+                     "PacketIn handler in a running controller has a little less), so a RecursionError reported here "
+                     "also happens in a controller" % HEADROOM,
+                     "on chains of more than %d headers str() and len() are called on a subset of the headers (first and last 8, "
+                     "depths on the ladder 8,12,16,24,...); dump() and pack() of the top header still visit all of them" % LONG_CHAIN,
                      "the statement does not say what a corrupted frame parses to: only totality, preservation of "
                      "unparsed bytes and printability / re-serialisability are checked",
                      "logging is disabled (the parsers' warnings are not observed)"]
@@ -677,7 +896,7 @@ def run (cfg):
   rep.extra["max_steps_in_one_phase"] = maxlines
   for key in sorted(best):
     ok, what, replay, cnt = best[key]
-    rep.violations[key] = dict(what="%s [frame %s, %d bytes]" % (what, replay["frame"], len(replay["hex"]) // 2),
+    rep.violations[key] = dict(what="%s [frame %s, %d bytes]" % (what, replay["frame"], replay["length"]),
                                replay=replay, count=cnt)
   return rep
 
@@ -692,12 +911,12 @@ def explains (known_key, key):
 
 def replay (cfg, data):
   P = pox_namespace()
-  raw = bytes.fromhex(data["hex"])
+  raw = replay_bytes(data)
   c = Case(P, raw).run()
   lines = ["frame %s  family=%s  length=%s/%s  pos=%s value=%s (was %s)"
            % (data.get("frame"), data.get("family"), data.get("length"), data.get("full_length"),
               data.get("pos"), data.get("value"), data.get("was")),
-           "input  %s" % raw.hex(),
+           "input  %s" % (raw.hex() if len(raw) <= HEX_MAX else "%s... (%d bytes, regenerated from mc/refs/pktgrammar.py)" % (raw[:64].hex(), len(raw))),
            "chain  %r" % (c.sig[0] if c.sig else None,),
            "dump   %r" % (c.text,)]
   for k, w in c.bad:
